@@ -32,6 +32,9 @@ pub trait SimHooks {
     fn on_open(&self, path: &Path, create: bool) -> Result<(), i32>;
     /// After a file was opened successfully.
     fn opened(&self, path: &Path, create: bool, len: u64);
+    /// After `opened`: does the descriptor carry O_APPEND (positional writes then land at the end
+    /// of the file whatever their offset is)?
+    fn opened_append(&self, _path: &Path, _append: bool) {}
     /// Before a positional write.
     fn on_write(&self, path: &Path, offset: u64, data: &[u8]) -> WriteDecision;
     /// Before a positional read.
@@ -159,6 +162,7 @@ where
 enum Call {
     OnOpen { path: PathBuf, create: bool },
     Opened { path: PathBuf, create: bool, len: u64 },
+    OpenedAppend { path: PathBuf, append: bool },
     OnWrite { path: PathBuf, offset: u64, data: Vec<u8> },
     OnRead { path: PathBuf, offset: u64, len: usize },
     OnSync { path: PathBuf },
@@ -212,6 +216,9 @@ impl SimHooks for ProxyHooks {
     }
     fn opened(&self, path: &Path, create: bool, len: u64) {
         self.call(Call::Opened { path: path.to_owned(), create, len });
+    }
+    fn opened_append(&self, path: &Path, append: bool) {
+        self.call(Call::OpenedAppend { path: path.to_owned(), append });
     }
     fn on_write(&self, path: &Path, offset: u64, data: &[u8]) -> WriteDecision {
         match self.call(Call::OnWrite { path: path.to_owned(), offset, data: data.to_vec() }) {
@@ -283,6 +290,10 @@ fn dispatch(call: Call) -> Reply {
             with(|h| h.opened(&path, create, len));
             Reply::Unit
         }
+        Call::OpenedAppend { path, append } => {
+            with(|h| h.opened_append(&path, append));
+            Reply::Unit
+        }
         Call::OnWrite { path, offset, data } => Reply::Write(with(|h| h.on_write(&path, offset, &data)).unwrap_or(WriteDecision::Proceed)),
         Call::OnRead { path, offset, len } => Reply::Res(with(|h| h.on_read(&path, offset, len)).unwrap_or(Ok(()))),
         Call::OnSync { path } => Reply::Res(with(|h| h.on_sync(&path)).unwrap_or(Ok(()))),
@@ -335,7 +346,7 @@ where
         match from_worker.recv() {
             Ok(Call::Done) | Err(_) => break,
             Ok(call) => {
-                let state_changing = !matches!(call, Call::Now | Call::FileCreatedAt { .. } | Call::Knob { .. } | Call::Opened { .. } | Call::Synced { .. });
+                let state_changing = !matches!(call, Call::Now | Call::FileCreatedAt { .. } | Call::Knob { .. } | Call::Opened { .. } | Call::OpenedAppend { .. } | Call::Synced { .. });
                 if state_changing && with(|h| h.job_preempt(token)).unwrap_or(false) {
                     let d = with(|h| h.job_preempt_delay(token)).unwrap_or(Duration::ZERO);
                     if d.is_zero() {
@@ -402,11 +413,14 @@ impl TappedFile {
         if create {
             options.create(true).write(true).read(true);
         } else {
-            options.create(false).append(true).read(true);
+            options.create(false).write(true).read(true);
         }
         let file = options.open(path)?;
         let len = file.metadata()?.len();
         with(|h| h.opened(path, create, len));
+        // what the kernel will do with positional writes is read from the descriptor, not assumed
+        let flags = unsafe { libc::fcntl(std::os::unix::io::AsRawFd::as_raw_fd(&file), libc::F_GETFL) };
+        with(|h| h.opened_append(path, flags >= 0 && flags & libc::O_APPEND != 0));
         Ok(Self {
             file,
             path: path.to_owned(),
